@@ -822,6 +822,15 @@ func c03Module(r *rng, i int) *ir.Module {
 	g3 := m.NewGlobalDef("s", constant.NewCharArrayFromString("hi\x00\"q\"\n"))
 	g3.Immutable = true
 	m.NewAlias("al", g1)
+	// unnamed entities of every kind, so that the numbering pass and the printing order have to agree
+	if i%2 == 1 {
+		m.NewAlias("", g1)
+		m.NewGlobalDef("", constant.NewInt(types.I8, 3))
+		res := m.NewFunc("", types.NewPointer(types.NewFunc(types.Void)))
+		res.NewBlock("").NewRet(constant.NewNull(types.NewPointer(types.NewFunc(types.Void))))
+		m.NewIFunc("", res)
+		m.NewAlias("", g3)
+	}
 	callee := m.NewFunc("callee", types.I32, ir.NewParam("x", types.I32))
 	callee.NewBlock("").NewRet(callee.Params[0])
 	f := m.NewFunc("main", types.I32, ir.NewParam("", types.I32), ir.NewParam("n", types.I32))
